@@ -34,6 +34,21 @@ def exTable : Table :=
 
 example : exTable.wf := by decide
 
+/-- a default of three elements inherited by the first and last object; the middle object overrides only the count
+(component descriptor 0x28: C without V) and still presents the complete default -/
+def exShared : Table :=
+  { stype := [80], sname := [],
+    cols := [⟨false, ⟨[65], 3, 15, [], some [.int 1, .int 2, .int 3]⟩⟩],
+    rows := [⟨⟨1, 0, [88]⟩, [⟨[65], 3, 15, [], some [.int 1, .int 2, .int 3]⟩]⟩,
+             ⟨⟨1, 0, [89]⟩, [⟨[65], 1, 15, [], some [.int 1, .int 2, .int 3]⟩]⟩,
+             ⟨⟨1, 0, [90]⟩, [⟨[65], 3, 15, [], some [.int 1, .int 2, .int 3]⟩]⟩] }
+
+example : exShared.wf := by decide
+example : encodeEflr exShared { rows := [[{ omitL := true, omitC := true, omitR := true, omitU := true, omitV := true }],
+      [{ omitL := true, omitR := true, omitU := true }], [{ stop := true }]] } =
+    [248, 1, 80, 0,  63, 1, 65, 3, 15, 0, 1, 2, 3,  112, 1, 0, 1, 88, 32,  112, 1, 0, 1, 89, 40, 1,  112, 1, 0, 1, 90] := by
+  decide
+
 example : encodeEflr exTable { rows := [[], [{ stop := true }, { stop := true }]] } =
     [248, 1, 80, 0,  95, 1, 73, 1, 19, 0, 2, 1, 2,  63, 1, 65, 1, 2, 1, 109, 63, 128, 0, 0,  62, 1, 66, 1, 19, 0,
      112, 1, 0, 1, 88,  0,  63, 1, 66, 2, 16, 0, 0, 7, 255, 255,  112, 1, 0, 1, 89] := by decide
@@ -73,6 +88,15 @@ the same as for the sequence with the encrypted records removed. -/
 theorem encrypted_skipped (prs : List (Nat × Rec)) :
     indexRecs prs = indexRecs (prs.filter (fun p => !p.2.encrypted)) := by
   unfold indexRecs; exact indexFrom_filter prs []
+
+/-- **Re-entering presents the same content.**  Whatever an object's `logical_files` held before (`prev`: the result of
+any earlier enter/exit history on the same `LogicalIndex`, or of another object over the same file), `__enter__`
+presents exactly what a fresh index of the records presents — with `split_at_file_header`, the encoded logical
+files, each once. -/
+theorem enter_history_independent (prev : List LFile) (prs : List (Nat × Rec)) :
+    enterIndex prev prs = indexRecs prs ∧ enterIndex (exitIndex prev) prs = indexRecs prs := ⟨rfl, rfl⟩
+
+example : enterIndex [⟨[(0, 0, exFH)], true, true, []⟩] [] = .ok [] := rfl
 
 /-- non-vacuity: two logical files (the second one with an empty template-less ORIGIN set), an encrypted record in
 between -/
